@@ -8,7 +8,7 @@
     front of its run, the one choice the property leaves open. *)
 From Coq Require Import List Bool Arith.
 From TLXV Require Import Common.Order C01.Model C01.Defs C01.Spec C01.SearchProofs C01.LookupProofs
-     C01.BulkProofs C01.InsertProofs C01.EraseElems C01.EraseInv C01.History.
+     C01.BulkProofs C01.BulkDedup C01.InsertProofs C01.EraseElems C01.EraseInv C01.History.
 Import ListNotations.
 
 (** Both in-node search strategies return the same slot on every sorted node, of every size. *)
@@ -72,31 +72,46 @@ Theorem C01_erase_iter_refines : forall (K V : Type) (ltb : K -> K -> bool) (key
 Proof. exact (@erase_iter_elems). Qed.
 Print Assumptions C01_erase_iter_refines.
 
-(** bulk_load of any list yields exactly that list as contents (every length, incl. capacity multiples);
-    for a sorted list the result satisfies the invariant (minimum fill of every node for every n). *)
+(** bulk_load of any range yields exactly that range as contents — in containers without duplicates: the first
+    entry of every run of equal keys ([bulk_items] = [dedup]), which is what std::set / std::map built from the
+    range hold — for every length (incl. capacity multiples); for EVERY sorted range (equal keys allowed, in all
+    four containers, runs crossing leaf boundaries or ending the range) the result satisfies the invariant
+    (minimum fill of every node for every n). *)
 Theorem C01_bulk_load_refines : forall (K V : Type) (ltb : K -> K -> bool) (key : V -> K) (dk : K)
     (leafmax innermax : nat) (dup : bool), SWO ltb -> 4 <= leafmax -> 4 <= innermax ->
   forall l : list V,
-    t_elems (bulk_load key dk leafmax innermax l) = l
-    /\ (keys_sorted ltb key dup l -> Inv ltb key dk leafmax innermax dup (bulk_load key dk leafmax innermax l)).
+    t_elems (bulk_load ltb key dk leafmax innermax dup l) = (if dup then l else dedup ltb key l)
+    /\ (sortedk ltb (map key l) = true ->
+        Inv ltb key dk leafmax innermax dup (bulk_load ltb key dk leafmax innermax dup l)).
 Proof.
   intros K V ltb key dk leafmax innermax dup Hswo Hl Hi l.
-  exact (conj (bulk_load_elems key dk leafmax innermax Hl Hi l)
+  exact (conj (bulk_load_elems ltb key dk leafmax innermax dup Hl Hi l)
               (bulk_load_inv ltb key dk leafmax innermax dup Hswo Hl Hi l)).
 Qed.
 Print Assumptions C01_bulk_load_refines.
 
+(** The bulk_load shipped before b2f41a5 stored every item also in set / map: witness 1 1 2 3 3 3 4. *)
+Theorem C01_bulk_load_shipped_refuted :
+  exists l : list nat,
+    sortedk Nat.ltb (map (fun x => x) l) = true
+    /\ inv_b Nat.ltb (fun x => x) 0 4 4 false (bulk_load_shipped (fun x => x) 0 4 4 l) = false
+    /\ length (t_elems (bulk_load_shipped (fun x : nat => x) 0 4 4 l)) = 7
+    /\ t_elems (bulk_load Nat.ltb (fun x => x) 0 4 4 false l) = [1; 2; 3; 4]
+    /\ inv_b Nat.ltb (fun x => x) 0 4 4 false (bulk_load Nat.ltb (fun x => x) 0 4 4 false l) = true.
+Proof. exact bulk_load_shipped_refuted. Qed.
+Print Assumptions C01_bulk_load_shipped_refuted.
+
 (** Histories: for every finite operation history over any number of container variables (insert, erase by
     key / one occurrence / iterator, find, exists, count, lower/upper bound, equal_range, full iteration,
-    clear, assignment, copy construction, swap, the six comparisons, bulk load of a sorted range into an
-    empty container), started in any invariant-satisfying state: every output and the final contents equal
+    clear, assignment, copy construction, swap, the six comparisons, bulk load of a sorted range — equal keys
+    allowed — into an empty container), started in any invariant-satisfying state: every output and the final contents equal
     those of the sorted-list specification machine, the invariant holds after every step, the model never
     reaches a state it declares impossible, and allocations minus frees equal the change in node count. *)
 Theorem C01_history_refines : forall (K V : Type) (ltb : K -> K -> bool) (key : V -> K) (dk : K)
     (leafmax innermax : nat) (dup binsearch : bool) (veqb vltb : V -> V -> bool),
   SWO ltb -> 4 <= leafmax -> 4 <= innermax ->
   forall (ops : list (@op K V)) (st : list (@tree K V)),
-    Forall (Inv ltb key dk leafmax innermax dup) st -> hist_wf ltb key dup (length st) ops ->
+    Forall (Inv ltb key dk leafmax innermax dup) st -> hist_wf ltb key (length st) ops ->
     let '(st', rs) := run ltb key dk leafmax innermax dup binsearch veqb vltb st ops in
     Forall (Inv ltb key dk leafmax innermax dup) st'
     /\ abs st' = fst (spec_run ltb key dk dup veqb vltb (abs st) ops)
